@@ -1,11 +1,13 @@
 import Placement.Driver.Core
 import Placement.Spec.Candidates
+import Placement.Spec.Summaries
 /-
   Driver commands of the filter / allocation-candidate specification (C13, C03, C02, C20), evaluated
   on the driver's current state (`DB Float`):
 
     {"cmd":"list_rps","filters":{...}}       -> {"status":200,"uuids":[...]} | {"status":400}
-    {"cmd":"candidates","query":{...}}       -> {"status":200,"candidates":[{"alloc":[[uuid,class,n]],"maps":[[suffix,[uuid]]]}]}
+    {"cmd":"candidates","query":{...}}       -> {"status":200,"candidates":[{"alloc":[[uuid,class,n]],"maps":[[suffix,[uuid]]]}],
+                                                 "summaries":[{"rp":uuid,"resources":[[class,capacity,used]],"traits":[..],"parent":..,"root":..}]}
 
   Unverified glue (JSON <-> the structures of `Spec/Filters.lean`, `Spec/Candidates.lean`).
 -/
@@ -108,6 +110,25 @@ def candJson (st : St) (c : Candidate) : Json :=
     ("alloc", Json.arr (c.alloc.map (fun x => Json.arr #[uuidOf x.1.1, rcOf x.1.2, x.2])).toArray),
     ("maps", Json.arr (c.maps.map (fun m => Json.arr #[nm m.1, Json.arr (m.2.map (fun p => Json.str (uuidOf p))).toArray])).toArray)]
 
+def summaryJson (st : St) (s : Summary) : Json :=
+  let nm := st.tbl.name
+  let db := st.db
+  let uuidOf (id : Nat) : String := match db.rpById id with | some r => nm r.uuid | none => s!"?{id}"
+  let rcOf (id : Nat) : String := match db.rcName id with | some n => nm n | none => s!"?{id}"
+  Json.mkObj ([
+    ("rp", Json.str (uuidOf s.rp)),
+    ("resources", Json.arr (s.resources.map (fun r => Json.arr #[rcOf r.rc, r.capacity, r.used])).toArray)] ++
+    (match s.traits with
+     | some ts => [("traits", Json.arr (ts.map (fun t => Json.str (nm t))).toArray)]
+     | none => []) ++
+    (match s.parent with
+     | some (some p) => [("parent", Json.str (uuidOf p))]
+     | some none => [("parent", Json.null)]
+     | none => []) ++
+    (match s.root with
+     | some r => [("root", Json.str (uuidOf r))]
+     | none => []))
+
 def handle? : Ext := fun j => do
   match j.getObjValAs? String "cmd" with
   | .ok "list_rps" =>
@@ -124,7 +145,8 @@ def handle? : Ext := fun j => do
     | some q =>
       let st ← get
       let cs := candidates st.db q
-      return some (Json.mkObj [("status", (200 : Nat)), ("candidates", Json.arr (cs.map (candJson st)).toArray)])
+      return some (Json.mkObj [("status", (200 : Nat)), ("candidates", Json.arr (cs.map (candJson st)).toArray),
+        ("summaries", Json.arr ((summaries st.db q cs).map (summaryJson st)).toArray)])
   | _ => return none
 
 end Placement.Driver.Cands
